@@ -91,6 +91,7 @@ func solveObligation(o *Obligation, dir string, timeoutMs int, agree bool) {
 		solveOne(o, sc, i, dir, timeoutMs, agree)
 		total += o.Ms
 		if o.Result != o.Expect {
+			o.FailIdx = i
 			if len(scripts) > 1 {
 				o.Detail = fmt.Sprintf("[path %d of %d] %s", i+1, len(scripts), o.Detail)
 			}
